@@ -67,11 +67,13 @@ type Frame struct {
 	insul   bool // frame of a deferred call running while its parent unwinds
 	onRet   func(Value) // engine continuation when this frame returns (instead of retTo)
 	isDefer bool
+	afterRecover bool
 }
 
 type panicState struct {
-	val Value // Iface
-	msg string
+	val       Value // Iface
+	msg       string
+	recovered bool
 }
 
 type Thread struct {
@@ -206,6 +208,20 @@ func (r *Run) stepNoRecover(t *Thread) (cont bool) {
 	fr := t.top()
 	if t.panic != nil && !fr.insul {
 		return r.unwind(t, fr)
+	}
+	if fr.afterRecover {
+		// a deferred call recovered the panic: run the remaining deferred calls, then resume at
+		// the function's Recover block (which loads the named results and returns)
+		if len(fr.defers) > 0 {
+			return r.runOneDefer(t, fr)
+		}
+		fr.afterRecover = false
+		if fr.fn.Recover == nil {
+			r.fail("recovered panic in a function without a Recover block")
+		}
+		fr.block = fr.fn.Recover
+		fr.pc = 0
+		return true
 	}
 	r.steps++
 	if r.steps > r.eng.cfg.MaxSteps {
@@ -483,6 +499,11 @@ func (r *Run) runOneDefer(t *Thread, fr *Frame) bool {
 
 // unwind performs one step of panic propagation in frame fr.
 func (r *Run) unwind(t *Thread, fr *Frame) bool {
+	if t.panic.recovered {
+		t.panic = nil
+		fr.afterRecover = true
+		return true
+	}
 	if len(fr.defers) > 0 {
 		return r.runOneDefer(t, fr)
 	}
